@@ -184,6 +184,25 @@ func runC05(ctx *core.Ctx) {
 			cs.Flush(lc)
 		})
 	}
+	// giant bodies: a script / style body of 64 KiB .. 3 MiB (size thresholds in text handling)
+	ctx.Run("giant-bodies", 16, func(cs *core.Case) {
+		env := NewEnv(worst[cs.Index%len(worst)])
+		if cs.Index%4 == 3 {
+			env = NewEnv([]spec.Op{{K: spec.KUGC}})
+		}
+		n := []int{65537, 300000, 1<<20 + 1, 3 << 20}[cs.Index/4%4]
+		name := []string{"script", "style"}[cs.Index%2]
+		in := "<b>lead</b><" + name + ">" + strings.Repeat("x = 1; ", n/7) + " zqgb000001</" + name + "><b>tail</b>"
+		lc := core.LocalCounts{}
+		ob := observe(env, in, cs.Index)
+		cs.Eval()
+		lc["giant_body_inputs"]++
+		c05Judge(cs, ob, lc)
+		if strings.Contains(ob.Out, "x = 1;") {
+			cs.Violate("C05:body:"+name+":giant", fmt.Sprintf("the %d-byte body of a <%s> element appears in the output (%d bytes out)", n, name, len(ob.Out)), map[string]interface{}{"policy": spec.Describe(env.Ops), "ops": env.Ops, "input_head": core.Show(core.Clip(in, 200)), "input_length": len(in), "output_head": core.Show(core.Clip(ob.Out, 200))})
+		}
+		cs.Flush(lc)
+	})
 	L := ctx.N(4, 5)
 	total := gen.PieceCount(L)
 	const chunk = 4096
